@@ -101,7 +101,7 @@ pub fn record(args: &Args) {
                     l2.lock().unwrap().push(json!({"name": "remove", "h": h, "ok": ok as u8}));
                 }
             });
-            let store = Arc::new(RecStore { inner: InMemoryStore::new(), hook });
+            let store = Arc::new(RecStore::new(InMemoryStore::new(), hook));
             let bs = Arc::new(RecBlockstore { inner: InMemoryBlockstore::new(), log: log.clone() });
             let mut stored: BTreeSet<u64> = BTreeSet::new();
             let mut pruned: BTreeSet<u64> = BTreeSet::new();
